@@ -170,6 +170,8 @@ PROBES = {
     "line-numbers-minus-style": (HEAD.replace(b"-1,2 +1,2", b"-77,1 +5,0") + b"-x\n", "77", None),
     "grep-file-style": (b"PROBE.rs:7:code\n", "PROBE.rs", ["git", "grep", "-n", "x"]),
     "grep-line-number-style": (b"f.rs:77:code\n", "77", ["git", "grep", "-n", "x"]),
+    # (the file name above a file's hits in ripgrep-style output)
+    "grep-header-file-style": (b"PROBE.rs:7:code\n", "PROBE.rs", ["git", "grep", "-n", "x"]),
     "hunk-header-line-number-style": (HEAD.replace(b"+1,2", b"+77,2") + b" x\n", "77", None),
     "blame-code-style": (b"01234567 (A U Thor 2020-01-01 00:00:00 +0000 1) PROBE\n", "PROBE", ["git", "blame", "f"]),
 }
@@ -185,6 +187,7 @@ EXTRA_OPTS = {"inline-hint-style": {"side-by-side": True, "width": "60"},
               "line-numbers-plus-style": {"line-numbers": True, "hunk-header-style": "omit"},
               "line-numbers-minus-style": {"line-numbers": True, "hunk-header-style": "omit"},
               "grep-file-style": {"grep-output-type": "classic"},
+              "grep-header-file-style": {"grep-output-type": "ripgrep"},
               "grep-line-number-style": {"grep-output-type": "classic"}}
 
 
